@@ -258,6 +258,10 @@ type PemFileIn struct {
 	Order  string `json:"order"` // gopki | reversed
 	Cut    int    `json:"cut"`   // -1 = whole file; otherwise keep this many bytes
 	KeyAlg string `json:"keyAlg"`
+	// HashPos: the hash line (and, with Note, a `# comment` line) is written before block number HashPos
+	// (0 = first line, as gopki writes it; >= number of blocks = last line)
+	HashPos int  `json:"hashPos"`
+	Note    bool `json:"note"`
 }
 
 var pemMaterial = map[string][3][]byte{}
@@ -293,8 +297,13 @@ func execPemFile(raw json.RawMessage) any {
 	in := decode[PemFileIn](raw)
 	mat := materialFor(in.KeyAlg)
 	var bb bytes.Buffer
-	if in.Hash {
-		bb.WriteString("#HASH:AAECAwQFBgcICQoLDA0ODxAREhM=\n")
+	hashLines := func() {
+		if in.Note {
+			bb.WriteString("# kept by hand, do not delete\n")
+		}
+		if in.Hash {
+			bb.WriteString("#HASH:AAECAwQFBgcICQoLDA0ODxAREhM=\n")
+		}
 	}
 	blocks := []*pem.Block{}
 	if in.Cert {
@@ -312,9 +321,15 @@ func execPemFile(raw json.RawMessage) any {
 		}
 	}
 	var ends []int
-	for _, b := range blocks {
+	for i, b := range blocks {
+		if in.HashPos == i {
+			hashLines()
+		}
 		pem.Encode(&bb, b)
 		ends = append(ends, bb.Len())
+	}
+	if in.HashPos >= len(blocks) {
+		hashLines()
 	}
 	content := bb.Bytes()
 	if in.Cut >= 0 && in.Cut < len(content) {
@@ -343,6 +358,16 @@ func genPemFile(yield func(any)) {
 		for mask := 0; mask < 16; mask++ {
 			for _, order := range []string{"gopki", "reversed"} {
 				yield(PemFileIn{Hash: mask&1 != 0, Cert: mask&2 != 0, Key: mask&4 != 0, Csr: mask&8 != 0, Order: order, Cut: -1, KeyAlg: alg})
+			}
+		}
+	}
+	// the hash line (and a comment line) between and after the blocks
+	for _, alg := range algs {
+		for mask := 2; mask < 16; mask += 2 {
+			for pos := 1; pos <= 3; pos++ {
+				for _, note := range []bool{false, true} {
+					yield(PemFileIn{Hash: true, Cert: mask&2 != 0, Key: mask&4 != 0, Csr: mask&8 != 0, Order: choose([]string{"gopki", "reversed"}), Cut: -1, KeyAlg: alg, HashPos: pos, Note: note})
+				}
 			}
 		}
 	}
